@@ -3,17 +3,30 @@ package c14
 
 import (
 	"fmt"
+	"os"
 	"strconv"
 	"strings"
 	"sync"
 	"sync/atomic"
 	"testing"
 
+	"github.com/named-data/ndnd/fw/core"
+	"github.com/named-data/ndnd/fw/table"
 	enc "github.com/named-data/ndnd/std/encoding"
 	"github.com/named-data/ndnd/std/engine/basic"
+	spec "github.com/named-data/ndnd/std/ndn/spec_2022"
 	"github.com/named-data/ndnd/std/object"
 	"verif/harness/common"
 )
+
+func init() {
+	// the forwarder's PIT-CS tree (one of the name-keyed tables) takes its settings from the core configuration
+	cfg := core.DefaultConfig()
+	cfg.Core.LogLevel = "FATAL"
+	core.LoadConfig(cfg, "")
+	core.InitializeLogger(os.DevNull)
+	table.Configure()
+}
 
 var compTypes = []uint64{8, 8, 8, 8, 1, 2, 9, 32, 0x32, 0x34, 0x36, 0x38, 0x3a, 7, 252, 253, 255, 256, 65535, 65536, 1 << 32, 0,
 	// the whole 64-bit range of type numbers the decoder accepts (differences that overflow int64)
@@ -285,6 +298,10 @@ func gen(g *common.Gen) {
 			g.Op("h %s", at)
 			g.Op("h %s", bt)
 			g.Op("h %s", common.NameText(a.Clone()))
+			if a.EncodingLength() < 5000 {
+				// a close non-equal name (other type / other width / spelled form) must not share a's hash
+				g.Op("h %s", common.NameText(uriTwin(r, g, a)))
+			}
 			g.Op("ph %s", ct)
 			if k == 0 {
 				// hashing is used from every face goroutine: the hash of a name must not depend on
@@ -322,6 +339,26 @@ func gen(g *common.Gen) {
 				q := common.NameText(uriTwin(r, g, variant(r, g, c)))
 				g.Op("tab trie %s %s", q, strings.Join(txt, " "))
 				g.Op("tab mem %s %s", q, strings.Join(txt, " "))
+				// the same tables under insertions, removals and lookups; the pool adds names sharing components
+				// across levels (P/x next to P/y/x: pruning one branch must not unfile a sibling)
+				pool := append([]enc.Name{}, names...)
+				if len(a) > 0 && len(b) > 0 {
+					k := r.Intn(len(a))
+					x, y := a[len(a)-1], b[r.Intn(len(b))]
+					pre := a[:k].Clone()
+					pool = append(pool, append(pre.Clone(), x), append(pre.Clone(), y, x), append(pre.Clone(), x, y), append(pre.Clone(), y))
+				}
+				for _, kind := range []string{"trie", "mem", "pit"} {
+					toks := make([]string, 0, 24)
+					for n := r.Range(8, 16); n > 0; n-- {
+						sign := common.Pick(r, []string{"+", "+", "+", "-", "-", "?"})
+						toks = append(toks, sign+common.NameText(common.Pick(r, pool)))
+					}
+					for _, n := range pool {
+						toks = append(toks, "?"+common.NameText(n))
+					}
+					g.Op("tabr %s %s", kind, strings.Join(toks, " "))
+				}
 			}
 			g.Stat("name-triples")
 		}
@@ -333,6 +370,87 @@ func gen(g *common.Gen) {
 			}
 		}
 	}
+}
+
+// execTabr: one of the real name-keyed tables under insert (+), remove (-) and lookup (?) of names;
+// one observation character per operation: n(ew)/e(xisting), r(emoved)/m(issing), 1/0.
+func execTabr(kind string, toks []string) string {
+	var ins func(n enc.Name) bool // true = was new
+	var rem func(n enc.Name) bool // true = was present
+	var has func(n enc.Name) bool
+	switch kind {
+	case "trie":
+		t := basic.NewNameTrie[int]()
+		has = func(n enc.Name) bool { nd := t.ExactMatch(n); return nd != nil && nd.Value() != 0 }
+		ins = func(n enc.Name) bool {
+			if has(n) {
+				return false
+			}
+			t.MatchAlways(n).SetValue(1)
+			return true
+		}
+		rem = func(n enc.Name) bool {
+			if !has(n) {
+				return false
+			}
+			nd := t.ExactMatch(n)
+			nd.SetValue(0)
+			nd.DeleteIf(func(v int) bool { return v == 0 })
+			return true
+		}
+	case "mem":
+		st := object.NewMemoryStore()
+		has = func(n enc.Name) bool { w, _ := st.Get(n, false); return w != nil }
+		ins = func(n enc.Name) bool {
+			if has(n) {
+				return false
+			}
+			st.Put(n, 0, []byte{1})
+			return true
+		}
+		rem = func(n enc.Name) bool {
+			if !has(n) {
+				return false
+			}
+			st.Remove(n, false)
+			return true
+		}
+	case "pit":
+		pit := table.NewPitCS(func(table.PitEntry) {})
+		nonce := uint32(7)
+		mk := func(n enc.Name) *spec.Interest { return &spec.Interest{NameV: n, NonceV: &nonce} }
+		has = func(n enc.Name) bool { return pit.FindInterestExactMatchEnc(mk(n)) != nil }
+		ins = func(n enc.Name) bool {
+			if has(n) {
+				return false
+			}
+			pit.InsertInterest(mk(n), nil, 1)
+			return true
+		}
+		rem = func(n enc.Name) bool {
+			e := pit.FindInterestExactMatchEnc(mk(n))
+			if e == nil {
+				return false
+			}
+			pit.RemoveInterest(e)
+			return true
+		}
+	default:
+		return "bad-op"
+	}
+	out := make([]byte, len(toks))
+	for i, t := range toks {
+		n := common.ParseNameText(t[1:])
+		switch t[0] {
+		case '+':
+			out[i] = map[bool]byte{true: 'n', false: 'e'}[ins(n)]
+		case '-':
+			out[i] = map[bool]byte{true: 'r', false: 'm'}[rem(n)]
+		default:
+			out[i] = map[bool]byte{true: '1', false: '0'}[has(n)]
+		}
+	}
+	return string(out)
 }
 
 func hashList(hs []uint64) string {
@@ -478,6 +596,8 @@ func exec(op string) string {
 			return "c=" + strings.Join(cls, ",")
 		}
 		return "bad-op"
+	case "tabr":
+		return execTabr(f[1], f[2:])
 	case "h":
 		return fmt.Sprintf("%x", common.ParseNameText(f[1]).Hash())
 	case "hc":
